@@ -17,7 +17,7 @@ ID_MENUS = {
 MD_MENUS = {
     'none': lambda ids, ax: None,
     'text': lambda ids, ax: [{'env': 'e ' + i, 'barcode/seq': 'ACGT'[k % 4:] + 'T', 'flow mL/min/m2': ' padded ' + i} for k, i in enumerate(ids)],
-    'numeric': lambda ids, ax: [{'depth': 1.5 * k, 'count': k + 1, 'flag': bool(k % 2)} for k, i in enumerate(ids)],
+    'numeric': lambda ids, ax: [{'depth': 1.5 * k, 'count': k + 1, 'flag': bool(k % 2), 'serial': 2 ** 53 + 1 + 2 * k} for k, i in enumerate(ids)],
     'taxonomy': lambda ids, ax: [{'taxonomy': (['k__A', ' p__' + i] if k != 1 else ['k__only ']), 'collapsed_ids': ['x' + i, ' ', 'y']}
                                  for k, i in enumerate(ids)],
     'taxonomy-with-null': lambda ids, ax: [{'taxonomy': (None if k == 0 else ['k__A', 'p__' + i])} for k, i in enumerate(ids)],
